@@ -19,6 +19,29 @@ ASSUMPTIONS = [
 ]
 
 
+def lazy_substep_wait(case, res):
+    """At the deadlock, does some simulator's next demanded step have a sub-step > 0 and a direct consumer
+    that (by the reference delays) must first reach a sub-step > 0 of the same time and still has an
+    earlier step outstanding?  (F04's mechanism)"""
+    from mvf import monitor, reftime
+    mon = monitor.Monitor(case["scenario"])
+    mon.run(res)
+    for p, pend in mon.pending.items():
+        if not pend:
+            continue
+        L = min(pend)
+        if not any(L[1:]):
+            continue
+        for c in mon.outof[p]:
+            q = c.dst
+            if q == p:
+                continue
+            Tq = reftime.apply(c.adapt, L)
+            if any(Tq[1:]) and any(D < Tq for D in mon.pending[q]):
+                return True
+    return False
+
+
 def analyse(case, res):
     scn = case["scenario"]
     fails = []
@@ -35,6 +58,10 @@ def analyse(case, res):
                 cls = schedprops.scenario_classes(scn)
                 sig = (f"C05.deadlock|lazy_only|weak={'weak' in cls}|"
                        f"group_crossing={'group_crossing' in cls}")
+                if not lazy_substep_wait(case, res):
+                    # F04's mechanism (a lazy wait for a consumer's *sub-step*, by the reference group
+                    # semantics) is not present in the deadlocked state: something else
+                    sig += "|no_lazy_substep_wait_in_reference"
         fails.append(Failure(f"C05.{res.outcome}", sig,
                              f"run() did not complete: {res.outcome}; steps so far "
                              f"{[(e[1], e[2]) for e in res.trace if e[0] == 'step_begin'][-8:]}"))
